@@ -31,6 +31,9 @@ package main
 //@   requires ls != nil && ls.manager != nil
 //@   assume-at-lock ls.listenerCloseFuncs != nil
 //@   ensures result.1 == nil ==> result.0 != nil
+//@   trace[C09,C10,one-listener-per-address-in-a-generation] each maplookup satisfies $res1 == true ==> result.1 != nil && evcount("service.ListenerManager.Listen*") == 0
+//@   trace[C09,C10,address-looked-up-before-listening] before maplookup service.ListenerManager.Listen*
+//@   trace[C10,every-handle-is-recorded-for-closing] each service.ListenerManager.Listen* satisfies $res1 == nil ==> evcount("mapupdate") == 1
 //@ func (*listenerSet).ListenPacket
 //@   props C10 C13 C18 C19
 //@   params ls addr
@@ -38,6 +41,9 @@ package main
 //@   requires ls != nil && ls.manager != nil
 //@   assume-at-lock ls.listenerCloseFuncs != nil
 //@   ensures result.1 == nil ==> result.0 != nil
+//@   trace[C09,C10,one-listener-per-address-in-a-generation] each maplookup satisfies $res1 == true ==> result.1 != nil && evcount("service.ListenerManager.Listen*") == 0
+//@   trace[C09,C10,address-looked-up-before-listening] before maplookup service.ListenerManager.Listen*
+//@   trace[C10,every-handle-is-recorded-for-closing] each service.ListenerManager.Listen* satisfies $res1 == nil ==> evcount("mapupdate") == 1
 //@ func (*listenerSet).Close
 //@   props C10 C13 C18 C19
 //@   params ls
@@ -76,6 +82,15 @@ package main
 //@   requires validServer(s)
 //@   ensures[C10,failure-keeps-old] result != nil ==> s.stopConfig == old(s.stopConfig)
 //@   trace[C10,failure-does-not-stop-old] never main.(*OutlineServer).Stop when result != nil
+//@   trace[C10,the-whole-file-is-the-configuration] exactly 1 os.ReadFile
+//@   trace[C10,reads-the-named-file] each os.ReadFile satisfies $arg0 == filename
+//@   trace[C10,parses-exactly-what-was-read] each main.readConfig satisfies sameslice($arg0, evres("os.ReadFile", 0))
+//@   trace[C09,C10,validates-what-was-parsed] each main.(*Config).Validate satisfies $arg0 == evres("main.readConfig", 0)
+//@   trace[C10,unreadable-file-fails-the-load] each os.ReadFile satisfies $res1 != nil ==> result != nil
+//@   trace[C10,malformed-file-fails-the-load] each main.readConfig satisfies $res1 != nil ==> result != nil
+//@   trace[C09,C10,invalid-config-fails-the-load] each main.(*Config).Validate satisfies $res0 != nil ==> result != nil
+//@   trace[C10,start-failure-fails-the-load] each main.(*OutlineServer).runConfig satisfies $res1 != nil ==> result != nil
+//@   trace[C10,runs-what-was-validated] each main.(*OutlineServer).runConfig satisfies evcount("main.(*Config).Validate") == 1
 //@   trace[C10,success-stops-old-once] exactly 1 main.(*OutlineServer).Stop when result == nil
 //@   trace[C11,start-new-before-stop-old] before main.(*OutlineServer).runConfig main.(*OutlineServer).Stop
 //@   trace[C10,one-generation-per-load] atmost 1 main.(*OutlineServer).runConfig
@@ -125,6 +140,7 @@ package main
 //@   trace[C09,legacy-port-serves-its-own-list] loop 2 each service.(*cipherList).Update satisfies $arg1 == cipherList
 //@   trace[C09,legacy-service-gets-port-list] loop 2 each service.WithCiphers satisfies $arg0 == evres("service.NewCipherList", 0)
 //@   trace[C09,legacy-listens-on-its-port] loop 2 each main.(*listenerSet).ListenStream satisfies $arg1 == addr
+//@   trace[C09,legacy-address-is-the-bare-port] loop 2 each fmt.Sprintf satisfies $arg0 == ":%d"
 //@   trace[C09,legacy-listens-on-its-port-udp] loop 2 each main.(*listenerSet).ListenPacket satisfies $arg1 == addr
 //@   trace[C09,legacy-one-service-per-port] loop 2 exactly 1 service.NewShadowsocksService
 //@   trace[C09,service-gets-its-own-keys] loop 3 each main.newCipherListFromConfig satisfies sameslice($arg0.Keys, serviceConfig.Keys)
